@@ -943,6 +943,7 @@ func newGen(prop string, seed, run int64, thorough bool) *genCtx {
 	g.ft = BaseFeat(r, thorough)
 	g.h = &History{Prop: prop, Seed: seed, Run: run}
 	g.h.Cfg = Config{Recover: r.P(0.5), Defer: r.P(0.15), ShuffleSeed: r.I64(), PanicKind: r.Intn(4)}
+	g.h.Cfg.OptNoise = r.P(0.15)
 	if r.P(0.35) {
 		// some universe positions are struct values instead of pointers
 		g.h.Cfg.ValMask = uint32(r.U64()) & uint32(r.U64()) & (1<<NumK - 1)
